@@ -1,5 +1,5 @@
 import NmlVerif.Gen.Groups
-import NmlVerif.Proofs.Groups
+import NmlVerif.Proofs.GroupsArg
 set_option linter.unusedSimpArgs false
 set_option linter.unusedVariables false
 /-!
@@ -93,18 +93,6 @@ theorem body_eq (rec_ : Cell → Arg → Bool → Except Err (List Nat)) (c : Ce
     | none =>
       simp only [ok_bind, Arg.isStr, ↓reduceIte, Arg.eqId, throw_eq, error_bind, pure_eq]
       simp only [show (allId == g) = (g == allId) from BEq.comm]
-
-theorem resolveArg_str_true (c : Cell) (f g : Nat) : resolveArg c f (.str g) true = resolve c f g := by
-  cases f with
-  | zero => rfl
-  | succ f =>
-    show (match findG c.groups g with
-      | none => if true && g == allId then Except.ok c.segs else Except.error Err.unknownGroup
-      | some G => G.includes.foldl (resStep (resolve c f)) (Except.ok (addNew [] G.members))) = _
-    rw [resolve_succ]
-    cases findG c.groups g with
-    | some G => rfl
-    | none => by_cases hg : g = allId <;> simp [hg]
 
 theorem gen_resolve (fuel : Nat) (c : Cell) (a : Arg) (aam : Bool) :
     get_all_segments_in_group fuel c a aam = resolveArg c fuel a aam := by
